@@ -300,3 +300,6 @@ func followsAll(fn *ssa.Function, isA, isB InstrPred, onlySuccess bool) bool {
 	}
 	return true
 }
+
+// callReachingAny is callReaching for a slice of targets.
+func (c *Ctx) callReachingAny(targets []*ssa.Function) InstrPred { return c.callReaching(targets...) }
